@@ -258,6 +258,11 @@ def contains(eng, cont, item, node):
             return z3.BoolVal(item.v in v)
         if isinstance(v, str):
             return z3.Contains(zstr(v), eng.term(item, STR))
+        if isinstance(v, (dict, list, tuple)) and len(v) > 8 and all(isinstance(x, str) for x in v) \
+                and not isinstance(item, OptV):
+            tb = (table_for_dict(v) if isinstance(v, dict) else None) or StrTable.get(list(v))
+            use_table(eng, tb)
+            return tb.mem(eng.term(item, STR))
         if isinstance(v, (dict, list, tuple, set, frozenset)):
             keys = list(v.keys()) if isinstance(v, dict) else list(v)
             if len(keys) > 300:
@@ -406,7 +411,127 @@ def index(eng, base, idx, node):
     raise Unsupported("index into %r" % (c,))
 
 
+class StrTable:
+    """A constant list of pairwise distinct strings (e.g. the 65-character alphabet) as a pair of mutually
+    inverse uninterpreted functions; the quantified facts are consequences of the concrete table, which is
+    checked here by evaluation (a table that is not injective gets no inverse facts)."""
+    _cache = {}
+
+    def __init__(self, items):
+        import hashlib
+        self.items = list(items)
+        h = hashlib.sha1(repr(self.items).encode()).hexdigest()[:8]
+        self.n = len(self.items)
+        self.tab = uf("tab_" + h, I, S)
+        self.idx = uf("idx_" + h, S, I)
+        self.h = h
+        lens = set(len(x) for x in self.items)
+        self.width = lens.pop() if len(lens) == 1 else None
+        self.injective = len(set(self.items)) == self.n
+        self.schemas = self._schemas()
+
+    @classmethod
+    def get(cls, items):
+        key = tuple(items)
+        if key not in cls._cache:
+            cls._cache[key] = StrTable(items)
+        return cls._cache[key]
+
+    def mem(self, c):
+        """c is an entry of the table  <=>  tab(idx(c)) == c with idx(c) in range (exact, given the entry facts)"""
+        if self.injective:
+            return z3.And(self.idx(c) >= 0, self.idx(c) < self.n, self.tab(self.idx(c)) == c)
+        return z3.Or([c == zstr(x) for x in self.items])
+
+    def mem_re(self):
+        return z3.Union(*[z3.Re(zstr(x)) for x in self.items])
+
+    def _schemas(self):
+        out = []
+        facts = []
+        for j, x in enumerate(self.items):
+            facts.append(self.tab(zint(j)) == zstr(x))
+            if self.injective:
+                facts.append(self.idx(zstr(x)) == j)
+        ent = Schema("table.%s.entries" % self.h, [], z3.And(facts), triggers=None, origin="const")
+        ent.lits = set(self.items)    # only instantiated (QF path) when one of these literals occurs in the VC
+        out.append(ent)
+        i = z3.Int("tb.%s.i" % self.h)
+        c = z3.Const("tb.%s.c" % self.h, S)
+        body_i = [self.mem(self.tab(i))]
+        if self.width is not None:
+            body_i.append(z3.Length(self.tab(i)) == self.width)
+        if self.injective:
+            body_i.append(self.idx(self.tab(i)) == i)
+            out.append(Schema("table.%s.idx" % self.h, [c], z3.Implies(
+                self.mem(c), z3.And(self.idx(c) >= 0, self.idx(c) < self.n, self.tab(self.idx(c)) == c)),
+                triggers=[[self.idx(c)]], origin="const"))
+        out.append(Schema("table.%s.tab" % self.h, [i], z3.Implies(z3.And(i >= 0, i < self.n), z3.And(body_i)),
+                          triggers=[[self.tab(i)]], origin="const"))
+        if self.injective and self.width == 1:
+            # link with the regular-language view (character class of the table): checked by construction
+            out.append(Schema("table.%s.class" % self.h, [c], z3.InRe(c, self.mem_re()) == self.mem(c),
+                              triggers=[[self.idx(c)]], origin="const"))
+        return out
+
+
+def use_table(eng, tb):
+    d = eng.__dict__.setdefault("table_schemas", {})
+    d[tb.h] = tb.schemas
+
+
+def table_for_dict(d):
+    """dict {str: int} that is a bijection onto 0..n-1 -> the StrTable of its keys ordered by value"""
+    keys = list(d.keys())
+    vals = list(d.values())
+    if keys and all(isinstance(k, str) for k in keys) and sorted(vals) == list(range(len(keys))) \
+            and all(isinstance(v, int) and not isinstance(v, bool) for v in vals):
+        inv = [None] * len(keys)
+        for k, v in d.items():
+            inv[v] = k
+        return StrTable.get(inv)
+    return None
+
+
 def const_dict_lookup(eng, d, idx, node):
+    tb = table_for_dict(d) if len(d) > 8 else None
+    if tb is not None and tb.injective:
+        use_table(eng, tb)
+        k = eng.term(idx, STR)
+        present = tb.mem(k)
+        if eng.may_catch("KeyError") and not eng.spec_mode:
+            if not eng.decide(present):
+                raise RaiseSig("KeyError")
+        else:
+            eng.safety("key", present, node)
+        return P(INT, tb.idx(k))
+    keys0 = list(d.keys())
+    if len(d) > 8 and keys0 and all(isinstance(x, str) for x in keys0) and all(
+            isinstance(v, int) and not isinstance(v, bool) for v in d.values()):
+        # general str -> int table: uninterpreted function with its graph as ground facts and its range
+        tbk = StrTable.get(keys0)
+        use_table(eng, tbk)
+        import hashlib
+        h = hashlib.sha1(repr(sorted(d.items())).encode()).hexdigest()[:8]
+        f = uf("map_" + h, S, I)
+        k = eng.term(idx, STR)
+        present = tbk.mem(k)
+        if eng.may_catch("KeyError") and not eng.spec_mode:
+            if not eng.decide(present):
+                raise RaiseSig("KeyError")
+        else:
+            eng.safety("key", present, node)
+        c = z3.Const("mp.%s.c" % h, S)
+        lo, hi = min(d.values()), max(d.values())
+        eng.__dict__.setdefault("table_schemas", {})["map_" + h] = [
+            Schema("map.%s.entries" % h, [], z3.And([f(zstr(a)) == b for a, b in d.items()]), origin="const"),
+            Schema("map.%s.range" % h, [c], z3.Implies(tbk.mem(c), z3.And(f(c) >= lo, f(c) <= hi)),
+                   triggers=[[f(c)]], origin="const")]
+        return P(INT, f(k))
+    return const_dict_lookup_ite(eng, d, idx, node)
+
+
+def const_dict_lookup_ite(eng, d, idx, node):
     """d[idx] for a constant dict and a symbolic key: pointwise function + key-presence obligation."""
     keys = list(d.keys())
     if not keys:
@@ -436,8 +561,11 @@ def const_dict_lookup(eng, d, idx, node):
 def const_list_index(eng, lst, idx, node):
     n = len(lst)
     i = eng.term(idx, INT)
-    pos = z3.If(i < 0, i + n, i)
-    ok = z3.And(pos >= 0, pos < n)
+    if z3.is_app(i) and i.decl().kind() == z3.Z3_OP_MOD and z3.is_int_value(i.arg(1)) and 0 < i.arg(1).as_long() <= n:
+        pos, ok = i, z3.BoolVal(True)      # x % c with 0 < c <= len: always a valid non-negative index
+    else:
+        pos = z3.If(i < 0, i + n, i)
+        ok = z3.And(pos >= 0, pos < n)
     if eng.may_catch("IndexError") and not eng.spec_mode:
         if not eng.decide(ok):
             raise RaiseSig("IndexError")
@@ -449,6 +577,10 @@ def const_list_index(eng, lst, idx, node):
             acc = z3.If(pos == j, zint(lst[j]), acc)
         return P(INT, acc)
     if all(isinstance(v, str) for v in lst):
+        if n > 8:
+            tb = StrTable.get(lst)
+            use_table(eng, tb)
+            return P(STR, tb.tab(pos))
         acc = zstr(lst[-1])
         for j in range(n - 2, -1, -1):
             acc = z3.If(pos == j, zstr(lst[j]), acc)
@@ -759,6 +891,8 @@ def bi_int(eng, args, kw, n):
                 raise RaiseSig("ValueError")
         else:
             eng.safety("int(str) numeral", ok, n)
+        if not eng.spec_mode:
+            eng.st.pc.append(z3.StrToInt(a.term) >= 0)     # value of a digit string
         return P(INT, z3.StrToInt(a.term))
     if isinstance(a, P) and a.ty.kind == "opq":
         return eng.reg.ext_call(eng, "int.of." + a.ty.args[0], [a], {}, n)
@@ -1132,7 +1266,9 @@ def exec_for(eng, s):
         try:
             items = iter_concrete(eng, it)
         except Unsupported as e:
-            raise Unsupported("loop without invariant over symbolic iterable: %s" % e)
+            items = bounded_string_items(eng, it, s)
+            if items is None:
+                raise Unsupported("loop without invariant over symbolic iterable: %s" % e)
         eng.unrolled.add("loop over constant %s unrolled (%d iterations)" % (ast.unparse(s.iter)[:40], len(items)))
         for x in items:
             eng.assign(s.target, x)
@@ -1144,6 +1280,37 @@ def exec_for(eng, s):
                 continue
         return
     eng.exec_for_invariant(s, it, inv)
+
+
+MAX_STR_UNROLL = 6
+
+
+def bounded_string_items(eng, it, s):
+    """`for c in s` / `for i, c in enumerate(s)` over a symbolic string of small length: complete case split on
+    the length (0..MAX_STR_UNROLL) with an obligation that the length cannot exceed the bound."""
+    enum = False
+    c = cell(eng, it)
+    if isinstance(c, Special) and c.tag == "enumerate":
+        enum = True
+        c = cell(eng, c.it)
+    if not (isinstance(c, P) and c.ty == STR):
+        return None
+    ln = z3.Length(c.term)
+    eng.emit("%s#unroll.bound[%s]" % (eng.cur_func, ast.unparse(s.iter)[:40]), ln <= MAX_STR_UNROLL,
+             meta={"kind": "encoding"})
+    n = None
+    for k in range(MAX_STR_UNROLL + 1):
+        if eng.decide(ln == k):
+            n = k
+            break
+    if n is None:
+        raise PathCut()
+    eng.unrolled.add("loop over a string of length <= %d at %s: case split on the length" % (
+        MAX_STR_UNROLL, ast.unparse(s.iter)[:40]))
+    items = [P(STR, z3.SubString(c.term, zint(j), zint(1))) for j in range(n)]
+    if enum:
+        items = [TupV([Conc(j), x]) for j, x in enumerate(items)]
+    return items
 
 
 def exec_while(eng, s):
